@@ -541,6 +541,8 @@ pub struct C03Cfg {
     pub tasks: usize,
     /// Max Ring::poll calls of the ring thread.
     pub max_polls: usize,
+    /// The ring has a kernel thread: submissions are consumed by an actor at any scheduling point.
+    pub sqpoll: bool,
 }
 
 struct C03Shared {
@@ -553,7 +555,7 @@ struct C03Shared {
 }
 
 pub fn c03_threads(cfg: C03Cfg, bound: u32) -> ThHarness {
-    let name = format!("threads-sq{}-prefill{}-{:?}x{}{}", cfg.sq, cfg.prefill, cfg.kind, cfg.tasks, if cfg.repoll_fresh { "-repoll" } else { "" });
+    let name = format!("threads-sq{}-prefill{}-{:?}x{}{}{}", cfg.sq, cfg.prefill, cfg.kind, cfg.tasks, if cfg.repoll_fresh { "-repoll" } else { "" }, if cfg.sqpoll { "-sqpoll" } else { "" });
     let describe = json!({"engine": "schx", "sq": cfg.sq, "prefilled_submissions": cfg.prefill, "kind": format!("{:?}", cfg.kind), "tasks": cfg.tasks, "repoll_with_fresh_waker": cfg.repoll_fresh, "ring_thread_polls": cfg.max_polls, "preemption_bound": bound});
     let cfg = Arc::new(cfg);
     ThHarness {
@@ -567,7 +569,11 @@ pub fn c03_threads(cfg: C03Cfg, bound: u32) -> ThHarness {
             simk::reset(simk::SetupPlan::default());
             talloc::set_on_free(Some(simk::on_free));
             let (ring, sq, fd) = talloc::track(|| {
-                let ring = Ring::config().with_submission_queue_size(cfg.sq).build().expect("ring");
+                let mut c = Ring::config().with_submission_queue_size(cfg.sq);
+                if cfg.sqpoll {
+                    c = c.with_kernel_thread();
+                }
+                let ring = c.build().expect("ring");
                 let sq = ring.sq();
                 let raw = simk::with(|k| k.new_regular_pub());
                 let fd: &'static AsyncFd = Box::leak(Box::new(unsafe { AsyncFd::from_raw_fd(raw, sq.clone()) }));
@@ -668,7 +674,7 @@ pub fn c03_threads(cfg: C03Cfg, bound: u32) -> ThHarness {
                 ));
             }
             // The kernel completes requests of the tasks' operations (oldest first), any time.
-            let actors = vec![Actor {
+            let mut actors = vec![Actor {
                 name: "completer".into(),
                 enabled: Box::new(|| simk::with(|k| k.reqs.iter().any(|r| !r.done && r.opcode != OP_WRITE))),
                 step: Box::new(|| {
@@ -679,6 +685,18 @@ pub fn c03_threads(cfg: C03Cfg, bound: u32) -> ThHarness {
                     })
                 }),
             }];
+            if cfg.sqpoll {
+                simk::with(|k| k.sqpoll_manual = true);
+                actors.push(Actor {
+                    name: "sq-thread".into(),
+                    enabled: Box::new(|| simk::with(|k| !k.rings.is_empty() && !k.rings[0].closed && k.rings[0].sq_pending() > 0 && !k.rings[0].sq_thread_idle)),
+                    step: Box::new(|| {
+                        simk::with(|k| {
+                            k.consume(0, 1);
+                        })
+                    }),
+                });
+            }
             let sq2 = Sendable(sq);
             let prefill = Sendable(prefill_ops);
             let judge = Box::new(move |_exec: &Exec| -> Vec<Violation> {
